@@ -84,8 +84,8 @@ span<const char> path::data() const
 }
 bool path::clear_data()
 {
-	array::content *d = array_content();
-	return d ? d->set_length(off + len) : true;
+	/* post data may be shared with copies of this path */
+	return mpt_path_invalidate(this) >= 0;
 }
 
 void path::set(const char *path, int len, int s, int a)
